@@ -23,6 +23,9 @@ void
 BitArrayT<NC_>::set() noexcept {
 	for (uint8_t& unit : _storage)
 		unit = UINT8_MAX;
+
+	if (CAPACITY % 8)
+		_storage[UNIT_COUNT - 1] = static_cast<uint8_t>((1 << (CAPACITY % 8)) - 1);
 }
 
 // - - - - - - - - - - - - - - - - - - - - - - - - - - - - - - - - - - - - - - -
